@@ -60,6 +60,9 @@ def _jaqal_import_module_relative(mod_name, import_path):
 
     spec = _jaqal_find_spec_relative(top_level, import_path)
     module = importlib.util.module_from_spec(spec)
+    # Remember how this module got into sys.modules: it must not satisfy a
+    # later *absolute* import of the same name.
+    module.__jaqal_relative_import__ = True
     sys.modules[mod_name] = module
     spec.loader.exec_module(module)
 
@@ -83,6 +86,18 @@ def jaqal_import(
         raise ImportError("Module name may not be empty")
 
     module = sys.modules.get(mod_name)
+
+    if (
+        module
+        and not relative
+        and getattr(module, "__jaqal_relative_import__", False)
+    ):
+        # Left behind by a relative Jaqal import; an absolute import has to
+        # find the module on the Python path (or fail) as it would have before.
+        del sys.modules[mod_name]
+        for k in [k for k in sys.modules.keys() if k.startswith(f"{mod_name}.")]:
+            del sys.modules[k]
+        module = None
 
     if module and reload_module:
         if full_reload:
